@@ -579,8 +579,9 @@ class IntegralGenerator:
         input = [*vars, *tables]
         output = [A]
 
-        # Make sure we don't have repeated symbols in input
-        input = list(set(input))
+        # Make sure we don't have repeated symbols in input (keeping order:
+        # set order depends on the hash seed)
+        input = list(dict.fromkeys(input))
 
         # assert input and output are Symbol objects
         assert all(isinstance(i, L.Symbol) for i in input)
